@@ -3,6 +3,7 @@
 # Prints a one-line summary:  SEED <dir> demo_mut=<rc> demo_clean=<rc> check=<rc> <VIOLATION line>
 set -u
 dir=$(readlink -f "$1"); prop=$2; tier=${3:-quick}
+ROOT=$(readlink -f "$(dirname "$0")/..")
 wt=/tmp/wt_seedtest_$$
 git -C /repo worktree add -q --detach "$wt" HEAD >/dev/null 2>&1 || { echo "SEED $dir worktree-failed"; exit 2; }
 cleanup() { git -C /repo worktree remove --force "$wt" >/dev/null 2>&1; }
@@ -13,20 +14,20 @@ fi
 rm -f /tmp/apply_err_$$
 NAVIS_REPO=$wt timeout 600 /venv/bin/python "$dir/demo.py" >/tmp/seed_demo_mut_$$.log 2>&1; dm=$?
 NAVIS_REPO=/repo timeout 600 /venv/bin/python "$dir/demo.py" >/tmp/seed_demo_clean_$$.log 2>&1; dc=$?
-cd /verif
+cd "$ROOT"
 NAVIS_REPO=$wt VERIF_SEED=${VERIF_SEED:-0} timeout 3000 ./check "$prop" --tier "$tier" >/tmp/seed_check_$$.log 2>&1; rc=$?
 viol=$(grep -m1 '^VIOLATION' /tmp/seed_check_$$.log)
 echo "SEED $dir demo_mut=$dm demo_clean=$dc check_$prop=$rc $viol"
 if [ -n "$viol" ]; then
   rp=$(echo "$viol" | sed -n 's/.*replay=\([^ ]*\).*/\1/p')
-  [ -f "/verif/$rp" ] && python3 -c "
-import json,sys; d=json.load(open('/verif/$rp')); print('   what:', str(d.get('what'))[:300])"
+  [ -f "$ROOT/$rp" ] && python3 -c "
+import json,sys; d=json.load(open('$ROOT/$rp')); print('   what:', str(d.get('what'))[:300])"
 fi
 rm -f /tmp/seed_demo_mut_$$.log /tmp/seed_demo_clean_$$.log
-mv /tmp/seed_check_$$.log /tmp/seed_check_last.log
+mv /tmp/seed_check_$$.log /tmp/seed_check_last_$prop.log
 # restore the generated Lean files from the clean tree
-cd /verif && /venv/bin/python -c "
-import sys; sys.path.insert(0,'/verif')
+cd "$ROOT" && /venv/bin/python -c "
+import sys; sys.path.insert(0,'$ROOT')
 from pathlib import Path
 from translator import gen as T
-T.regenerate(Path('/repo'), Path('/verif/lean/NavisModel/Gen'))" >/dev/null 2>&1
+T.regenerate(Path('/repo'), Path('$ROOT/lean/NavisModel/Gen'))" >/dev/null 2>&1
